@@ -1,10 +1,12 @@
-"""Component `CHPAsset` / `Plant` (property C06), profile-free case (no start/shutdown ramp profiles):
-builder correspondence on top of the real `Contract` base problem, and the C06 oracles on the real code.
+"""Component `CHPAsset` / `Plant` / `CHPAsset_with_min_load_costs` (property C06; window theorems: C08CHP), with and
+without start / shutdown ramp profiles: builder correspondence on top of the real `Contract` base problem (rows, bounds,
+costs, mapping; `costs_only` cost vector), and the C06 oracles on the real code.
 
 A case is a plain JSON value:
   grid    : {start, end, freq, unit, tz}          (scenario format of harness.scen)
   step_s, unit_s : seconds of the grid step / of the main time unit
-  cls     : 'CHPAsset' | 'Plant'
+  cls     : 'CHPAsset' | 'Plant' | 'CHPAsset_with_min_load_costs'
+  profiles: (optional) 'both' | 'start' | 'shutdown' — args then carry start_ramp_* / shutdown_ramp_* lists (and ramp_freq)
   name, nodes : asset name, node names (power[, heat][, fuel])
   args    : constructor arguments (harness.scen encodings: {"$dt"}, {"$arr"}; interval dicts as
             {"start":[{"$dt"}…], "end":[…], "values":[…]})
@@ -19,6 +21,9 @@ Oracles:
                    [last − ramp, last + ramp]
   chp.start_flag   probe: start flag without off->on transition; start bounds untouched by the initial state
   chp.capacity, chp.ramp, chp.heat_share, chp.fuel, chp.start_flag    recomputed from an optimised portfolio
+  chp.min_load     below the threshold while on => bool_threshhold = 1 (from an optimised portfolio)
+  chp.profile      k-th step after a start / before a shutdown: virtual dispatch within the k-th profile bounds
+                   (bounds on the grid from the model), start/shutdown flags exact (from an optimised portfolio)
 Facts `kind` of deviations that are recorded findings of the current tree (decided by known_findings.json, not
 here): 'spurious_start' (F-06b), 'first_step_lower_too_tight' with tar = 0 (F-06c), 'guard_not_in_steps' (F-06d).
 Every other kind ('first_step_ramp_up', 'first_step_shutdown_excluded', 'ramp_conv_index', 'ramp_step',
@@ -309,6 +314,18 @@ def gen_case(rnd, kind='build', tmax=10):
             args['running_costs'] = 'missing_key'
     if kind == 'portfolio':
         case['companions'] = gen_companions(rnd, case, T)
+        if 'profiles' in case and rnd.random() < 0.75:
+            # blocks of attractive / unattractive power prices, so that the plant starts and stops inside the horizon and
+            # the profile bounds of the ramp steps are exercised; no history that forces the state
+            blk = rnd.choice([2, 3, 3, 4])
+            off0 = rnd.randint(0, 2 * blk - 1)
+            case['prices']['m_el'] = [(300. if ((t + off0) // blk) % 2 == 0 else -80.) + q8(rnd, 0, 4) for t in range(T)]
+            if rnd.random() < 0.6:
+                args['min_runtime'] = 0.
+                args['min_downtime'] = 0.
+                args.pop('time_already_running', None)
+                args.pop('time_already_off', None)
+                case['state'] = 'neither'
     return case
 
 
